@@ -93,6 +93,27 @@ class ScopedIter(Generic[T]):
             await aclose
 
 
+async def close_all(iterators: Iterable[Any]) -> None:
+    """
+    ``aclose`` all closeable ``iterators``, even if closing one of them fails
+
+    If closing an iterator raises (e.g. because the task is cancelled meanwhile),
+    the remaining iterators are still closed before the exception propagates,
+    as for nested ``async with`` blocks.
+    """
+    remaining = iter(iterators)
+    for iterator in remaining:
+        try:
+            aclose = iterator.aclose
+        except AttributeError:
+            continue
+        try:
+            await aclose()
+        except BaseException:
+            await close_all(remaining)
+            raise
+
+
 def borrow(iterator: AsyncIterator[T]) -> AsyncGenerator[T, None]:
     """Borrow an async iterator for iteration, preventing it from being closed"""
     return (item async for item in iterator)
